@@ -8,12 +8,13 @@
 //
 //	rt <class> <A def, '~' for ' '> <B def> <n> (<lon> <lat>)*n
 //
-// impl parses both definitions FRESH for every single call (so the result is independent of any
-// transformer history; that is C10's subject), dumps the fields of both *SR right after
+// impl builds ONE forward and ONE inverse transformer per line from one parsed pair and runs all
+// positions and all three legs through those two objects in the order a user would; every answer
+// is also computed by a transformer parsed and built fresh for that call (control, flag H); it dumps the fields of both *SR right after
 // proj.Parse (exported and, read-only through reflect, the unexported `sphere` and `datum`), and
 // for every position runs   q = (A->B)(p);  p2 = (B->A)(q);  q2 = (A->B)(p2):
 //
-//	=> A <srdump> B <srdump> T <nilAB> <nilBA> R (<qx> <qy> <err> <p2x> <p2y> <err> <q2x> <q2y> <err>)*n
+//	=> A <srdump> B <srdump> T <nilAB> <nilBA> H <reused != fresh> R (<qx> <qy> <err> <p2x> <p2y> <err> <q2x> <q2y> <err>)*n
 package main
 
 import (
@@ -147,18 +148,53 @@ func impl() {
 			}
 			var sb strings.Builder
 			sb.WriteString("A " + srDump(A) + " B " + srDump(B))
-			nilAB, nilBA := false, false
+			// ONE forward and ONE inverse transformer for the whole line, built from one parsed
+			// pair (as a user would), called 16 and 8 times: project, un-project, project again
+			// for every position in turn.  Every answer is also computed by a transformer that
+			// is parsed and built fresh for that single call (the control): H = 1 when any
+			// reused answer differs from the fresh one (bit patterns or error status).
+			UA, errA := proj.Parse(a)
+			UB, errB := proj.Parse(b)
+			var tAB, tBA proj.Transformer
+			var errAB, errBA error
+			if errA == nil && errB == nil {
+				tAB, errAB = UA.NewTransform(UB)
+				tBA, errBA = UB.NewTransform(UA)
+			}
+			call := func(t proj.Transformer, e0 error, x, y float64) (float64, float64, error, bool) {
+				if errA != nil || errB != nil {
+					return math.NaN(), math.NaN(), fmt.Errorf("parse failed"), false
+				}
+				if e0 != nil {
+					return math.NaN(), math.NaN(), fmt.Errorf("newtransform: %v", e0), false
+				}
+				if t == nil {
+					return x, y, nil, true
+				}
+				ox, oy, err := t(x, y)
+				return ox, oy, err, false
+			}
+			same := func(x1, y1 float64, e1 error, x2, y2 float64, e2 error) bool {
+				return math.Float64bits(x1) == math.Float64bits(x2) && math.Float64bits(y1) == math.Float64bits(y2) && (e1 == nil) == (e2 == nil)
+			}
+			nilAB, nilBA, hist := false, false, false
 			var rs strings.Builder
 			for i := 0; i < n; i++ {
 				lon, lat := p.F(), p.F()
-				qx, qy, e1, n1 := once(a, b, lon, lat)
-				px, py, e2, n2 := once(b, a, qx, qy)
-				rx, ry, e3, _ := once(a, b, px, py)
+				qx, qy, e1, n1 := call(tAB, errAB, lon, lat)
+				px, py, e2, n2 := call(tBA, errBA, qx, qy)
+				rx, ry, e3, _ := call(tAB, errAB, px, py)
+				fqx, fqy, f1, _ := once(a, b, lon, lat)
+				fpx, fpy, f2, _ := once(b, a, qx, qy)
+				frx, fry, f3, _ := once(a, b, px, py)
+				if !same(qx, qy, e1, fqx, fqy, f1) || !same(px, py, e2, fpx, fpy, f2) || !same(rx, ry, e3, frx, fry, f3) {
+					hist = true
+				}
 				nilAB, nilBA = nilAB || n1, nilBA || n2
 				fmt.Fprintf(&rs, " %s %s %s %s %s %s %s %s %s", hexf(qx), hexf(qy), errTok(e1),
 					hexf(px), hexf(py), errTok(e2), hexf(rx), hexf(ry), errTok(e3))
 			}
-			fmt.Fprintf(&sb, " T %s %s R%s", b2s(nilAB), b2s(nilBA), rs.String())
+			fmt.Fprintf(&sb, " T %s %s H %s R%s", b2s(nilAB), b2s(nilBA), b2s(hist), rs.String())
 			res = sb.String()
 		})
 		if pan != "" {
@@ -582,6 +618,21 @@ func gen(seed uint64, tier string) {
 		{"+proj=tmerc +lat_0=49 +lon_0=-2 +k=0.9996012717 +x_0=400000 +y_0=-100000 +datum=OSGB36 +units=m", [][2]float64{{-1.5, 52}, {1.5, 51}, {-5.5, 58}}},
 		{"+proj=tmerc +lat_0=0 +lon_0=9 +k=1 +x_0=3500000 +y_0=0 +ellps=bessel +datum=potsdam +pm=paris", [][2]float64{{6.7, 50.1}, {10, 48}}},
 		{"+proj=longlat +ellps=bessel +towgs84=589,76,480", [][2]float64{{14.4, 50.1}, {-120, -33}}},
+	}
+	// a geographic CRS and its projected CRS on the same national datum (WGS84 two-hop route on
+	// ONE reused transformer pair: seeded change C08-a3)
+	same := []struct {
+		a, b string
+		ps   [][2]float64
+	}{
+		{"+proj=longlat +datum=potsdam", "+proj=tmerc +lat_0=0 +lon_0=9 +k=1 +x_0=3500000 +y_0=0 +datum=potsdam +units=m", [][2]float64{{9.2, 48.8}, {7.1, 50.7}, {11.6, 48.1}, {8.7, 53.1}}},
+		{"+proj=longlat +datum=OSGB36", "+proj=tmerc +lat_0=49 +lon_0=-2 +k=0.9996012717 +x_0=400000 +y_0=-100000 +datum=OSGB36 +units=m", [][2]float64{{-0.1, 51.5}, {-3.2, 55.9}, {-4.3, 50.4}}},
+		{"+proj=longlat +ellps=bessel +towgs84=589,76,480", "+proj=krovak +ellps=bessel +towgs84=589,76,480", [][2]float64{{14.4, 50.1}, {17, 48.5}, {13, 49.7}}},
+	}
+	for _, f := range same {
+		a := crs{def: f.a, tags: []string{"gS"}}
+		b := crs{def: f.b, tags: []string{"fixed"}}
+		emit(out, class(between(f.b, "+proj=", " "), a, b), a, b, f.ps)
 	}
 	for _, f := range fixed {
 		b := crs{def: f.b, tags: []string{"fixed"}}
